@@ -282,7 +282,14 @@ class Sim:
         from aioslsk.protocol.messages import Ping
         w, c = self.w, self.c
         ep = w.server
-        if reason == 'EOF':
+        pending_login = self.auto_login_pending and c.network.server_connection.state.name == 'CONNECTED'
+        if pending_login and reason in ('EOF', 'READ_ERROR'):
+            # the automatic re-login is reading its reply: that read notices the loss
+            if reason == 'EOF':
+                ep.feed_eof()
+            else:
+                ep.set_exception(ConnectionResetError('reset'))
+        elif reason == 'EOF':
             if c.network.server_connection._reader_task is None:
                 # no reader running (not logged in): the loss is noticed by the next read; use a send path instead
                 ep.feed_eof()
@@ -856,7 +863,7 @@ def run(run: Run):
     run.trusted += ['virtual-time loop and fake transports (vlib): real sockets, UPnP and thread executors are not exercised',
                     'listening error_mode=ANY so that 0..2 ports can be configured; shares counts are computed from the files the harness creates']
     run.assumptions += ['the server accepts or refuses connects atomically; write errors surface from drain()']
-    run.prove([])
+    run.prove(['tr_session'])
 
     import sys
     sys.unraisablehook = lambda *a: None     # coroutines of a deliberately wedged client are dropped with the loop
@@ -894,11 +901,22 @@ def run(run: Run):
             st = dict(base, reconnect=True)
             explore(run, {'settings': st, 'steps': [['start', True], ['login', 'ok'], ['lost', reason], ['tick', True], ['login', reply],
                                                      ['command'], ['tick', True], ['tick', True], ['stop']]}, cases, 'relogin:' + reply)
+    # the connection is lost again while the automatic re-login waits for its reply
+    for reason in REASONS:
+        st = dict(base, reconnect=True)
+        explore(run, {'settings': st, 'steps': [['start', True], ['login', 'ok'], ['lost', 'READ_ERROR'], ['tick', True], ['lost', reason],
+                                                 ['command'], ['tick', True], ['login', 'ok'], ['stop']]}, cases, 'loss-while-relogin-pending')
+    # tracking workers in their retry period (no AddUser reply for 10 s) when the client stops / loses the connection
+    for rec in (True, False):
+        st = dict(base, reconnect=rec)
+        explore(run, {'settings': st, 'steps': [['start', True], ['login', 'ok'], ['tick', True], ['command'], ['stop']]}, cases, 'retry-pending')
+        explore(run, {'settings': st, 'steps': [['start', True], ['login', 'ok'], ['tick', True], ['lost', 'READ_ERROR'], ['tick', True], ['stop']]},
+                cases, 'retry-pending')
     # the connection breaks at every frame of the burst
     st = dict(base, reconnect=False, favorites=['roomA'], auto_join=False)
     for k in sorted(cut_sites_for(st)):
         explore(run, {'settings': st, 'steps': [['start', True], ['logincut', k], ['command'], ['stop']]}, cases, 'burst-cut')
-    n = 60 if run.tier == 'quick' else 1500
+    n = 40 if run.tier == "quick" else 1500
     for i in range(n):
         st = gen_settings(rng)
         sites = cut_sites_for(st) if rng.random() < 0.3 else {}
